@@ -30,7 +30,7 @@ typedef struct pair0_sock pair0_sock;
 static void pair0_pipe_send_cb(void *);
 static void pair0_pipe_recv_cb(void *);
 static void pair0_pipe_fini(void *);
-static void pair0_send_sched(pair0_sock *);
+static void pair0_send_sched(pair0_sock *, pair0_pipe *);
 static void pair0_pipe_send(pair0_pipe *, nni_msg *);
 
 // pair0_sock is our per-socket protocol private structure.
@@ -181,7 +181,7 @@ pair0_pipe_start(void *arg)
 	s->rd_ready = false;
 	nni_mtx_unlock(&s->mtx);
 
-	pair0_send_sched(s);
+	pair0_send_sched(s, p);
 
 	// And the pipe read of course.
 	nni_pipe_recv(p->pipe, &p->aio_recv);
@@ -216,6 +216,13 @@ pair0_pipe_recv_cb(void *arg)
 	nni_msg_set_pipe(msg, nni_pipe_id(p->pipe));
 
 	nni_mtx_lock(&s->mtx);
+	if (s->p != p) {
+		// the pipe was stopped while this receive completed
+		nni_mtx_unlock(&s->mtx);
+		nni_aio_set_msg(&p->aio_recv, NULL);
+		nni_msg_free(msg);
+		return;
+	}
 
 	// if anyone is blocking, then the lmq will be empty, and
 	// we should deliver it there.
@@ -241,7 +248,7 @@ pair0_pipe_recv_cb(void *arg)
 }
 
 static void
-pair0_send_sched(pair0_sock *s)
+pair0_send_sched(pair0_sock *s, pair0_pipe *from)
 {
 	pair0_pipe *p;
 	nni_msg    *m;
@@ -250,7 +257,8 @@ pair0_send_sched(pair0_sock *s)
 
 	nni_mtx_lock(&s->mtx);
 
-	if ((p = s->p) == NULL) {
+	if (((p = s->p) == NULL) || (p != from)) {
+		// (a stopped pipe's completion must not touch the current one)
 		nni_mtx_unlock(&s->mtx);
 		return;
 	}
@@ -303,7 +311,7 @@ pair0_pipe_send_cb(void *arg)
 		return;
 	}
 
-	pair0_send_sched(p->pair);
+	pair0_send_sched(p->pair, p);
 }
 
 static void
